@@ -355,6 +355,22 @@ def _glue(ctx, prog, cc, ib):
             newb = util.find_one(ctx, suffix='constraints::Constraints::new')
             if isinstance(ret, tuple) and ret[0] == 'call' and ret[1] == newb.path:
                 delegated = ret
+            if delegated is None and name == 'update_range':
+                # `*self = Self::new(from, to, ..)`: the whole value replaced by what the constructor builds from the new range
+                for nbi, nt in b.calls():
+                    if nt['callee'].get('resolved') != newb.path:
+                        continue
+                    d = nt.get('dest') or {}
+                    whole = d.get('local') == 1 and [e['k'] for e in d.get('proj', [])] == ['deref']
+                    if not whole:
+                        for i2, j2, st2 in b.stmts():
+                            l2, rv2 = st2['lhs'], st2['rv']
+                            if l2['local'] == 1 and [e['k'] for e in l2['proj']] == ['deref'] and rv2['k'] == 'use' and rv2['op'].get('k') in ('move', 'copy') and \
+                                    rv2['op']['place']['local'] == d.get('local') and not rv2['op']['place']['proj']:
+                                whole = True
+                    nct = strip(b.call_term(nt, (nbi, None)))
+                    if whole and util.is_param(nct[2], 2) and util.is_param(nct[3], 3):
+                        delegated = nct
         if delegated is not None:
             ctx.ok('R07.3', name + '/centres', b.where(0), 'delegates to Constraints::new')
             ctx.ok('R07.3', name + '/stores', b.where(0), 'delegates to Constraints::new')
